@@ -357,7 +357,6 @@ func (t *translator) analyze() {
 		visit(g)
 	}
 	t.order = sorted
-	t.checkRecordMutation() // recmut.go: the rule under which `p.f = e` through a record pointer is accepted
 }
 
 func (t *translator) nonZeroConst(e ast.Expr) bool {
